@@ -389,3 +389,13 @@ M('c12-json-async-first-chunk-only', 'C12', 'R10', 'falcon/media/json.py', UDA,
 # variant (the shape of s10-c12-3): the chunks are decoded one by one before they are joined
 M('c12-json-async-decodes-chunkwise', 'C12', 'R10', 'falcon/media/json.py', UDA,
   "        return self._deserialize(''.join([chunk.decode() async for chunk in stream]).encode())\n", also=('C08',))
+
+# ---- wave 10: R1 the cached error object is re-raised untouched (seeded change s10-c12-1)
+_RERAISE = "            raise self._media_error\n"
+M('c12-cached-error-reraised-from-none', 'C12', 'R1', 'falcon/request.py', _RERAISE, "            raise self._media_error from None\n")
+M('c12-asgi-cached-error-reraised-from-none', 'C12', 'R1', 'falcon/asgi/request.py', _RERAISE, "            raise self._media_error from None\n")
+# variant: through a local, chained to a fresh exception
+M('c12-cached-error-rechained-through-local', 'C12', 'R1', 'falcon/request.py', _RERAISE,
+  "            err = self._media_error\n            raise err from RuntimeError('media was already consumed')\n")
+# negative controls (exit 0): `err = self._media_error` / `raise err`; the "render the media" block of Response.render_body moved into
+# `Response._serialize_media()` that returns the rendition (k1-c12-1) or stores it itself
